@@ -8,11 +8,10 @@
    What is NOT proved here (only checked per run by the correspondence and the oracle):
    * the single-term pass (compute_simplified) and simplify_scalars are modelled and compared
      state by state, but have no theorem; simplify_hadamard / the greedy search are not modelled;
-   * for the fixed flop tracking the run-level theorem compares with the run WITHOUT simplify_batch;
-     that this unsimplified run's flops are the tree's flops is the per-step theorem
-     C18_processor_flops_eq_tree_flops (its leg-set hypotheses are not chained over a run). *)
+   (the chain reported flops = tree flops is C18_reported_flops_eq_tree_flops.) *)
 From Coq Require Import Lia.
-From Ctg Require Import Base Net HGraph Simulators Compressed BaseFacts NetFacts SimulatorsFacts HGraphFacts HGraphTreeFacts.
+From Ctg Require Import Base Net HGraph Simulators Compressed BaseFacts NetFacts SimulatorsFacts HGraphFacts HGraphTreeFacts
+                        ProcessorTreeFacts.
 
 (* annealing's compute_contracted_info is the tree rule, literally: same keys in the same
    order with the same counts (legs_union then filter count < appearances), cost = product
@@ -120,6 +119,36 @@ Theorem C18_fixed_run_reports_unsimplified_flops : forall p path,
   pflops_acc (run_path (proc_simplify_batch p) path) = pflops_acc (run_path p path).
 Proof. exact fixed_run_eq_unsimplified_checked. Qed.
 Print Assumptions C18_fixed_run_reports_unsimplified_flops.
+
+(* THE SECOND HALF OF THE PROPERTY, for the code as it is now, with only boolean hypotheses that
+   the check evaluates inside Coq on every generated case: the flops random-greedy reports for a
+   path (processor with track_flops, simplify_batch, then the contractions of the path, each adding
+   batch_factor * compute_flops) ARE total_flops of the tree built from that path.
+     proc_ok_b   : the initial processor is structurally sound (see above);
+     present_b   : every batch index sits on an operand at every step;
+     init_lr_b   : the label -> processor-index map is injective on the network's indices, sizes and
+                   appearances agree through it, and every input's legs are the tree's leaf legs
+                   (true exactly when no index is repeated inside a tensor or dangling).
+   Chain: simplify_batch run = unsimplified run (C18_fixed_run_reports_unsimplified_flops); in the
+   unsimplified run every node carries the tree's legs of its subtree under the renaming, so each
+   contraction adds node_flops of the new node (sum over the path of
+   C18_processor_flops_eq_tree_flops / C18_processor_rule_eq_tree_rule); the nodes created along an
+   SSA path are exactly the internal nodes of the tree it builds.
+   Outside the model: simplify_single_terms / simplify_scalars / simplify_hadamard of the real
+   simplify() (no-ops or flop-neutral pairings on these networks) and the greedy choice of the path. *)
+Theorem C18_reported_flops_eq_tree_flops : forall n path t,
+  let p0 := proc_init_fixed n true in
+  proc_ok_b p0 = true -> present_b (batch_indices p0) p0 path = true -> init_lr_b n p0 = true ->
+  ssa_tree (NN n) path = Some t ->
+  reported_flops_gen true n path = total_flops n [] t.
+Proof. exact rgreedy_reports_tree_flops. Qed.
+Print Assumptions C18_reported_flops_eq_tree_flops.
+
+(* the nodes an SSA path creates are the internal nodes of the tree it builds *)
+Theorem C18_ssa_path_creates_tree_nodes : forall N path t, ssa_tree N path = Some t ->
+  Permutation.Permutation (post_sub t) (replay_trees N (map (fun i => (i, Leaf i)) (seq 0 N)) path).
+Proof. exact ssa_tree_nodes. Qed.
+Print Assumptions C18_ssa_path_creates_tree_nodes.
 
 (* compute_contracted commutes with dropping indices (the legs part of the invariant) *)
 Theorem C18_compute_contracted_commutes_with_batch_removal : forall ap B il jl, ssorted il -> ssorted jl ->
